@@ -934,4 +934,450 @@ theorem failed_restart {s : State} {led : Ledger} (hrel : Rel s led) (c : Cfg)
       · simp at hlaw
 
 
+/-! ### which events an operation can emit -/
+
+theorem load_gen {g : Nat} {c : Cfg} {r : Bool} {fds : List Nat} {e : Event} (h : e ∈ (load g c r fds).1) : genOf e = g :=
+  (load_blk g c r fds).gen e h
+
+theorem mem_cbs {k : CB} {g : Nat} {e : Event} : e ∈ cbs k g ↔ e = .cb k g 0 ∨ e = .cb k g 1 := by
+  simp [cbs]
+
+theorem restart_events {s : State} {c : Cfg} {o : Inst} {rest : List Inst} (hi : s.insts = o :: rest) :
+    (step s (.restart c)).2.events =
+      if o.cfg.restartErr then .cb .rs o.gen 0 :: cbs .rf o.gen
+      else if (load s.next c true (restartFds o)).2 then
+        cbs .rs o.gen ++ (load s.next c true (restartFds o)).1 ++ stopEvents o ++ cbs .sd o.gen
+      else cbs .rs o.gen ++ (load s.next c true (restartFds o)).1 ++ cbs .rf o.gen := by
+  cases hr : o.cfg.restartErr
+  · by_cases hl : (load s.next c true (restartFds o)).2 = true
+    · simp [step, hi, runCbs, hr, hl]
+    · have hl' : (load s.next c true (restartFds o)).2 = false := by simpa using hl
+      simp [step, hi, runCbs, hr, hl']
+  · simp [step, hi, runCbs, hr]
+
+/-- where an event of a segment comes from -/
+theorem step_events_cases {s : State} {op : Op} {e : Event} (he : e ∈ (step s op).2.events) :
+    (∃ c, op = .start c ∧ e ∈ (load s.next c false []).1) ∨
+    (∃ c o rest, op = .restart c ∧ s.insts = o :: rest ∧
+        (e ∈ (load s.next c true (restartFds o)).1 ∨ e ∈ cbs .rs o.gen ∨ e ∈ cbs .rf o.gen ∨ e ∈ cbs .sd o.gen ∨
+         e ∈ stopEvents o)) ∨
+    (op = .stopAll ∧ ∃ i ∈ s.insts, e ∈ stopEvents i) ∨
+    (∃ n, op = .signal n ∧ s.once = false ∧ ∃ i ∈ s.insts, e ∈ cbs .sd i.gen ∨ e ∈ cbs .fd i.gen) := by
+  cases op with
+  | start c =>
+    left
+    refine ⟨c, rfl, ?_⟩
+    by_cases hl : (load s.next c false []).2 = true
+    · simpa [step, hl] using he
+    · have hl' : (load s.next c false []).2 = false := by simpa using hl
+      simpa [step, hl'] using he
+  | restart c =>
+    right; left
+    cases hi : s.insts with
+    | nil => simp [step, hi] at he
+    | cons o rest =>
+      refine ⟨c, o, rest, rfl, rfl, ?_⟩
+      rw [restart_events hi] at he
+      split at he
+      · rcases List.mem_cons.mp he with h | h
+        · right; left; rw [mem_cbs]; exact Or.inl h
+        · right; right; left; exact h
+      · split at he
+        · simp only [List.mem_append] at he
+          rcases he with ((h | h) | h) | h
+          · exact Or.inr (Or.inl h)
+          · exact Or.inl h
+          · exact Or.inr (Or.inr (Or.inr (Or.inr h)))
+          · exact Or.inr (Or.inr (Or.inr (Or.inl h)))
+        · simp only [List.mem_append] at he
+          rcases he with (h | h) | h
+          · exact Or.inr (Or.inl h)
+          · exact Or.inl h
+          · exact Or.inr (Or.inr (Or.inl h))
+  | stopAll =>
+    right; right; left
+    simp only [step] at he
+    exact ⟨rfl, List.mem_flatMap.mp he⟩
+  | signal n =>
+    right; right; right
+    by_cases ho : s.once = true
+    · simp [step, ho] at he
+    · have ho' : s.once = false := by simpa using ho
+      simp only [step, ho', Bool.false_eq_true, if_false, shutdownEvents] at he
+      obtain ⟨i, hi, h⟩ := List.mem_flatMap.mp he
+      exact ⟨n, rfl, ho', i, hi, List.mem_append.mp h⟩
+
+theorem not_mem_cbs_kind {k k' : CB} {g g' i : Nat} (hk : k ≠ k') : Event.cb k g i ∉ cbs k' g' := by
+  intro h
+  rcases mem_cbs.mp h with e | e <;> injection e with e1 <;> exact hk e1
+
+theorem not_stop_cb {k : CB} {g i : Nat} {o : Inst} : Event.cb k g i ∉ stopEvents o := by
+  intro h
+  obtain ⟨j, _, _, e⟩ := stopLoop_mem h
+  cases e
+
+/-- first-startup callbacks are emitted only by a Start, for the instance it creates -/
+theorem step_fs {s : State} {op : Op} {g i : Nat} (h : Event.cb .fs g i ∈ (step s op).2.events) :
+    (∃ c, op = .start c) ∧ g = s.next := by
+  rcases step_events_cases h with ⟨c, rfl, hl⟩ | ⟨c, o, rest, rfl, _, hl | hl | hl | hl | hl⟩ | ⟨rfl, i', _, hl⟩ |
+    ⟨n, rfl, _, i', _, hl | hl⟩
+  · exact ⟨⟨c, rfl⟩, load_gen hl⟩
+  · have := (load_blk s.next c true (restartFds o)).ge _ hl
+    simp [phase, rank, sub] at this; split at this <;> omega
+  · exact absurd hl (not_mem_cbs_kind (by decide))
+  · exact absurd hl (not_mem_cbs_kind (by decide))
+  · exact absurd hl (not_mem_cbs_kind (by decide))
+  · exact absurd hl not_stop_cb
+  · exact absurd hl not_stop_cb
+  · exact absurd hl (not_mem_cbs_kind (by decide))
+  · exact absurd hl (not_mem_cbs_kind (by decide))
+
+/-- final-shutdown callbacks are emitted only by a shutdown signal -/
+theorem step_fd {s : State} {op : Op} {g i : Nat} (h : Event.cb .fd g i ∈ (step s op).2.events) :
+    ∃ n, op = .signal n := by
+  rcases step_events_cases h with ⟨c, rfl, hl⟩ | ⟨c, o, rest, rfl, _, hl | hl | hl | hl | hl⟩ | ⟨rfl, i', _, hl⟩ |
+    ⟨n, rfl, _, i', _, _⟩
+  · have := (load_blk s.next c false []).le _ hl
+    simp [phase, rank, sub] at this; split at this <;> omega
+  · have := (load_blk s.next c true (restartFds o)).le _ hl
+    simp [phase, rank, sub] at this; split at this <;> omega
+  · exact absurd hl (not_mem_cbs_kind (by decide))
+  · exact absurd hl (not_mem_cbs_kind (by decide))
+  · exact absurd hl (not_mem_cbs_kind (by decide))
+  · exact absurd hl not_stop_cb
+  · exact absurd hl not_stop_cb
+  · exact ⟨n, rfl⟩
+
+/-- startup callbacks and Serve calls of generation g are emitted only by the operation that creates generation g -/
+theorem step_su_sv {s : State} {op : Op} {e : Event} (h : e ∈ (step s op).2.events)
+    (hk : (∃ g i, e = .cb .su g i) ∨ (∃ g k, e = .serve g k)) : genOf e = s.next := by
+  rcases step_events_cases h with ⟨c, rfl, hl⟩ | ⟨c, o, rest, rfl, _, hl | hl | hl | hl | hl⟩ | ⟨rfl, i', _, hl⟩ |
+    ⟨n, rfl, _, i', _, hl | hl⟩
+  · exact load_gen hl
+  · exact load_gen hl
+  all_goals
+    exfalso
+    rcases hk with ⟨g, i, rfl⟩ | ⟨g, k, rfl⟩
+    · first
+        | exact absurd hl (not_mem_cbs_kind (by decide))
+        | exact absurd hl not_stop_cb
+    · first
+        | (rcases mem_cbs.mp hl with e | e <;> cases e)
+        | (obtain ⟨j, _, _, e⟩ := stopLoop_mem hl; cases e)
+
+
+/-- the events of a Start or Restart segment come in the prescribed order and none twice -/
+theorem start_pblk (s : State) (c : Cfg) : PBlk 0 8 (step s (.start c)).2.events := by
+  have hb := (load_blk s.next c false []).p
+  by_cases hl : (load s.next c false []).2 = true
+  · simpa [step, hl] using hb
+  · have hl' : (load s.next c false []).2 = false := by simpa using hl
+    simpa [step, hl'] using hb
+
+theorem restart_pblk (s : State) (c : Cfg) : PBlk 0 17 (step s (.restart c)).2.events := by
+  cases hi : s.insts with
+  | nil => simp [step, hi]; exact ⟨ord_nil, List.nodup_nil, ge_nil _, le_nil _⟩
+  | cons o rest =>
+    rw [restart_events hi]
+    have hb := (load_blk s.next c true (restartFds o)).p
+    simp only [if_true] at hb
+    have h1 : PBlk 2 8 (cbs .rs o.gen ++ (load s.next c true (restartFds o)).1) :=
+      pblk_append (blk_cbs .rs o.gen).p hb (by simp [rank]) (by simp [rank]) (by simp [rank])
+    split
+    · refine ⟨by simp [Ord, cbs, phase, rank, sub], by simp [cbs], ?_, ?_⟩
+      · intro e _; omega
+      · intro e he
+        simp only [cbs, List.mem_cons, List.not_mem_nil, or_false] at he
+        rcases he with rfl | rfl | rfl <;> simp [phase, rank, sub]
+    · split
+      · have h2 := pblk_append h1 (pblk_stopEvents o) (by omega) (by omega) (by omega : 8 ≤ 10)
+        have h3 := pblk_append h2 (blk_cbs .sd o.gen).p (by simp [rank]) (by simp [rank]) (by simp [rank])
+        exact ⟨h3.ord, h3.nodup, fun e _ => by omega, le_mono h3.le (by simp [rank])⟩
+      · have h2 := pblk_append h1 (blk_cbs .rf o.gen).p (by simp [rank]) (by simp [rank]) (by simp [rank])
+        exact ⟨h2.ord, h2.nodup, fun e _ => by omega, le_mono h2.le (by simp [rank])⟩
+
+/-- in an ordered list, an element of smaller phase lies before -/
+theorem ord_before {E pre post : List Event} {x y : Event} (ho : Ord E) (he : E = pre ++ x :: post)
+    (hy : y ∈ E) (hlt : phase y < phase x) : y ∈ pre := by
+  subst he
+  rcases List.mem_append.mp hy with h | h
+  · exact h
+  · exfalso
+    rcases List.mem_cons.mp h with h | h
+    · subst h; omega
+    · have := (List.pairwise_append.mp ho).2.1
+      have := (List.pairwise_cons.mp this).1 y h
+      omega
+
+/-- a segment that contains a Serve call of generation g contains both OnStartup callbacks of g -/
+theorem serve_has_startup {s : State} {op : Op} {g k : Nat} (h : Event.serve g k ∈ (step s op).2.events) :
+    ((∃ c, op = .start c) ∨ (∃ c, op = .restart c)) ∧ cbs .su g ⊆ (step s op).2.events := by
+  have hg : g = s.next := step_su_sv h (Or.inr ⟨g, k, rfl⟩)
+  rcases step_events_cases h with ⟨c, rfl, hl⟩ | ⟨c, o, rest, rfl, hi, hl | hl | hl | hl | hl⟩ | ⟨rfl, i', _, hl⟩ |
+    ⟨n, rfl, _, i', _, hl | hl⟩
+  · refine ⟨Or.inl ⟨c, rfl⟩, ?_⟩
+    by_cases hok : (load s.next c false []).2 = true
+    · have he := (load_ok hok).2
+      intro e he'
+      simp only [step, hok, if_true]
+      rw [he]; rw [hg] at he'; simp [he']
+    · have hok' : (load s.next c false []).2 = false := by simpa using hok
+      have := load_fail_allowed hok' _ hl
+      simp [allowedLoading] at this
+  · refine ⟨Or.inr ⟨c, rfl⟩, ?_⟩
+    by_cases hok : (load s.next c true (restartFds o)).2 = true
+    · have he := (load_ok hok).2
+      intro e he'
+      rw [restart_events hi]
+      have hsub : e ∈ (load s.next c true (restartFds o)).1 := by rw [he]; rw [hg] at he'; simp [he']
+      split
+      · rename_i hr
+        -- the old instance's OnRestart callback failed: no load took place, but then there is no Serve either
+        exfalso
+        rw [restart_events hi, if_pos hr] at h
+        simp [cbs] at h
+      · simp [hok, hsub]
+    · have hok' : (load s.next c true (restartFds o)).2 = false := by simpa using hok
+      have := load_fail_allowed hok' _ hl
+      simp [allowedLoading] at this
+  all_goals
+    exfalso
+    first
+      | (rcases mem_cbs.mp hl with e | e <;> cases e)
+      | (obtain ⟨j, _, _, e⟩ := stopLoop_mem hl; cases e)
+
+theorem startup_before_serve {s : State} {op : Op} {g k : Nat} {pre post : List Event}
+    (h : (step s op).2.events = pre ++ .serve g k :: post) : .cb .su g 0 ∈ pre ∧ .cb .su g 1 ∈ pre := by
+  have hmem : Event.serve g k ∈ (step s op).2.events := by rw [h]; simp
+  obtain ⟨hop, hsub⟩ := serve_has_startup hmem
+  have hord : Ord (step s op).2.events := by
+    rcases hop with ⟨c, rfl⟩ | ⟨c, rfl⟩
+    · exact (start_pblk s c).ord
+    · exact (restart_pblk s c).ord
+  constructor
+  · exact ord_before hord h (hsub (by simp [cbs])) (by simp [phase, rank, sub])
+  · exact ord_before hord h (hsub (by simp [cbs])) (by simp [phase, rank, sub])
+
+
+/-- all events of a history, in order -/
+def trace (s : State) (ops : List Op) : List Event := (runFrom s ops).flatMap fun x => x.1.events
+
+theorem trace_cons (s : State) (op : Op) (rest : List Op) :
+    trace s (op :: rest) = (step s op).2.events ++ trace (step s op).1 rest := by
+  simp [trace, runFrom]
+
+theorem step_next (s : State) (op : Op) : (step s op).1.next = s.next + 1 := by
+  cases op with
+  | start c => by_cases hl : (load s.next c false []).2 = true <;> simp [step, hl]
+  | restart c =>
+    cases hi : s.insts with
+    | nil => simp [step, hi]
+    | cons o rest =>
+      cases hr : o.cfg.restartErr
+      · by_cases hl : (load s.next c true (restartFds o)).2 = true <;> simp [step, hi, runCbs, hr, hl]
+      · simp [step, hi, runCbs, hr]
+  | stopAll => simp [step]
+  | signal n => by_cases ho : s.once = true <;> simp [step, ho]
+
+/-- an event that only the creating operation of its generation emits does not occur once that generation is past -/
+theorem count_later {e : Event} (hown : ∀ (s : State) (op : Op), e ∈ (step s op).2.events → genOf e = s.next) :
+    ∀ (ops : List Op) (s : State), genOf e < s.next → (trace s ops).count e = 0 := by
+  intro ops
+  induction ops with
+  | nil => intro s _; simp [trace, runFrom]
+  | cons op rest ih =>
+    intro s hlt
+    rw [trace_cons, List.count_append, ih (step s op).1 (by rw [step_next]; omega)]
+    have : e ∉ (step s op).2.events := fun h => by have := hown s op h; omega
+    simp [List.count_eq_zero_of_not_mem this]
+
+/-- … and occurs at most once in the whole trace if it occurs at most once in a segment -/
+theorem count_once {e : Event} (hown : ∀ (s : State) (op : Op), e ∈ (step s op).2.events → genOf e = s.next)
+    (hseg : ∀ (s : State) (op : Op), (step s op).2.events.count e ≤ 1) :
+    ∀ (ops : List Op) (s : State), (trace s ops).count e ≤ 1 := by
+  intro ops
+  induction ops with
+  | nil => intro s; simp [trace, runFrom]
+  | cons op rest ih =>
+    intro s
+    rw [trace_cons, List.count_append]
+    by_cases hg : genOf e = s.next
+    · rw [count_later hown rest (step s op).1 (by rw [step_next]; omega)]
+      exact hseg s op
+    · have : e ∉ (step s op).2.events := fun h => hg (hown s op h)
+      rw [List.count_eq_zero_of_not_mem this]
+      simpa using ih (step s op).1
+
+theorem nodup_count_le {l : List Event} (h : l.Nodup) (e : Event) : l.count e ≤ 1 :=
+  List.nodup_iff_count.mp h e
+
+theorem seg_count_own {s : State} {op : Op} {e : Event}
+    (hown : ∀ (s : State) (op : Op), e ∈ (step s op).2.events → (∃ c, op = .start c) ∨ (∃ c, op = .restart c)) :
+    (step s op).2.events.count e ≤ 1 := by
+  by_cases h : e ∈ (step s op).2.events
+  · rcases hown s op h with ⟨c, rfl⟩ | ⟨c, rfl⟩
+    · exact nodup_count_le (start_pblk s c).nodup e
+    · exact nodup_count_le (restart_pblk s c).nodup e
+  · simp [List.count_eq_zero_of_not_mem h]
+
+
+/-- the events emitted by the shutdown signals of a history -/
+def signalTrace (s : State) : List Op → List Event
+  | [] => []
+  | op :: rest =>
+    (match op with
+     | .signal _ => (step s op).2.events
+     | _ => []) ++ signalTrace (step s op).1 rest
+
+theorem once_sticky {s : State} (h : s.once = true) (op : Op) : (step s op).1.once = true := by
+  cases op with
+  | start c => by_cases hl : (load s.next c false []).2 = true <;> simp [step, hl, h]
+  | restart c =>
+    cases hi : s.insts with
+    | nil => simp [step, hi, h]
+    | cons o rest =>
+      cases hr : o.cfg.restartErr
+      · by_cases hl : (load s.next c true (restartFds o)).2 = true <;> simp [step, hi, runCbs, hr, hl, h]
+      · simp [step, hi, runCbs, hr, h]
+  | stopAll => simp [step, h]
+  | signal n => simp [step, h]
+
+theorem signalTrace_once : ∀ (ops : List Op) (s : State), s.once = true → signalTrace s ops = [] := by
+  intro ops
+  induction ops with
+  | nil => intro s _; rfl
+  | cons op rest ih =>
+    intro s h
+    simp only [signalTrace, ih _ (once_sticky h op), List.append_nil]
+    cases op <;> simp [step, h]
+
+theorem shutdownEvents_nodup {insts : List Inst} (hs : insts.Pairwise fun a b => a.gen < b.gen) :
+    (shutdownEvents insts).Nodup := by
+  unfold shutdownEvents
+  refine List.pairwise_flatMap.mpr ⟨?_, ?_⟩
+  · intro i _; simp [cbs]
+  · refine List.Pairwise.imp ?_ hs
+    intro a b hab x hx y hy hxy
+    have h1 : genOf x = a.gen := gen_shutdownOf (by simpa [shutdownOf] using hx)
+    have h2 : genOf y = b.gen := gen_shutdownOf (by simpa [shutdownOf] using hy)
+    subst hxy; omega
+
+theorem signal_sets_once (s : State) (n : Nat) : (step s (.signal n)).1.once = true := by
+  by_cases ho : s.once = true <;> simp [step, ho]
+
+/-- whatever the history and however many signals it contains, no shutdown or final-shutdown callback runs twice -/
+theorem signalTrace_count : ∀ (ops : List Op) (s : State) (led : Ledger), Rel s led → ∀ e, (signalTrace s ops).count e ≤ 1 := by
+  intro ops
+  induction ops with
+  | nil => intro s led _ e; simp [signalTrace]
+  | cons op rest ih =>
+    intro s led h e
+    cases op with
+    | signal n =>
+      simp only [signalTrace]
+      rw [signalTrace_once rest _ (signal_sets_once s n), List.append_nil]
+      by_cases ho : s.once = true
+      · simp [step, ho]
+      · have ho' : s.once = false := by simpa using ho
+        simp only [step, ho', Bool.false_eq_true, if_false]
+        exact List.nodup_iff_count.mp (shutdownEvents_nodup h.sorted) e
+    | start c => simpa [signalTrace] using ih _ _ (rel_step h (.start c)) e
+    | restart c => simpa [signalTrace] using ih _ _ (rel_step h (.restart c)) e
+    | stopAll => simpa [signalTrace] using ih _ _ (rel_step h .stopAll) e
+
+/-- the first signal runs the shutdown and final-shutdown callbacks of every live instance -/
+theorem first_signal_runs_all {s : State} (ho : s.once = false) (n : Nat) {i : Inst} (hi : i ∈ s.insts) :
+    cbs .sd i.gen ++ cbs .fd i.gen ⊆ (step s (.signal n)).2.events := by
+  intro e he
+  simp only [step, ho, Bool.false_eq_true, if_false, shutdownEvents]
+  exact List.mem_flatMap.mpr ⟨i, hi, he⟩
+
+/-! ### the wait-group counter never goes negative -/
+
+/-- Serve calls of live instances that `Stop` will end, per lineage -/
+def liveG (insts : List Inst) (l : Nat) : Int :=
+  match insts with
+  | [] => 0
+  | i :: rest => (if i.lineage = l then (gracefulCount i : Int) else 0) + liveG rest l
+
+theorem liveG_nonneg : ∀ (insts : List Inst) (l : Nat), 0 ≤ liveG insts l := by
+  intro insts l
+  induction insts with
+  | nil => simp [liveG]
+  | cons i rest ih => simp only [liveG]; split <;> omega
+
+theorem liveG_append (a b : List Inst) (l : Nat) : liveG (a ++ b) l = liveG a l + liveG b l := by
+  induction a with
+  | nil => simp [liveG]
+  | cons i rest ih => simp only [List.cons_append, liveG, ih]; omega
+
+theorem stopAllWg_eq (l : Nat) : ∀ (insts : List Inst) (wg : Nat → Int), stopAllWg wg insts l = wg l - liveG insts l := by
+  intro insts
+  induction insts with
+  | nil => intro wg; simp [stopAllWg, liveG]
+  | cons i rest ih =>
+    intro wg
+    simp only [stopAllWg, ih, wgSub, liveG]
+    by_cases h : i.lineage = l
+    · subst h; simp
+      omega
+    · have h' : ¬ l = i.lineage := fun e => h e.symm
+      simp [h, h']
+
+theorem gracefulCount_le (i : Inst) : gracefulCount i ≤ i.cfg.servers.length := by
+  unfold gracefulCount; exact List.length_filter_le _ _
+
+/-- every Serve call that a live instance's `Stop` will end is counted in the wait group of its lineage -/
+def WgCovers (s : State) : Prop := ∀ l, liveG s.insts l ≤ s.wg l
+
+theorem wgCovers_step {s : State} (h : WgCovers s) (op : Op) : WgCovers (step s op).1 := by
+  intro l
+  have hl := h l
+  cases op with
+  | start c =>
+    by_cases hok : (load s.next c false []).2 = true
+    · simp only [step, hok, if_true, liveG_append, liveG, wgAdd]
+      have := gracefulCount_le ⟨s.next, s.next, c⟩
+      simp only at this
+      by_cases e : s.next = l
+      · subst e; simp; omega
+      · have e' : ¬ l = s.next := fun x => e x.symm
+        simp [e, e']; omega
+    · have hok' : (load s.next c false []).2 = false := by simpa using hok
+      simpa [step, hok'] using hl
+  | restart c =>
+    cases hi : s.insts with
+    | nil => simpa [step, hi] using hl
+    | cons o rest =>
+      rw [hi] at hl
+      simp only [liveG] at hl
+      cases hr : o.cfg.restartErr
+      · by_cases hok : (load s.next c true (restartFds o)).2 = true
+        · simp only [step, hi, runCbs, hr, hok, Bool.false_eq_true, if_false, Bool.not_true, liveG_append, liveG,
+            wgAdd, wgSub]
+          have := gracefulCount_le ⟨s.next, o.lineage, c⟩
+          simp only at this
+          by_cases e : o.lineage = l
+          · subst e; simp at hl ⊢; omega
+          · have e' : ¬ l = o.lineage := fun x => e x.symm
+            simp [e, e'] at hl ⊢; omega
+        · have hok' : (load s.next c true (restartFds o)).2 = false := by simpa using hok
+          simp only [step, hi, runCbs, hr, hok', Bool.false_eq_true, if_false, Bool.not_false, if_true, liveG]
+          exact hl
+      · simp only [step, hi, runCbs, hr, if_true, Bool.not_false, liveG]
+        exact hl
+  | stopAll =>
+    simp only [step, liveG, stopAllWg_eq]
+    omega
+  | signal n => by_cases ho : s.once = true <;> simpa [step, ho] using hl
+
+theorem wgCovers_after : ∀ (ops : List Op) (s : State), WgCovers s → WgCovers (stateAfter s ops) := by
+  intro ops
+  induction ops with
+  | nil => intro s h; exact h
+  | cons op rest ih => intro s h; exact ih _ (wgCovers_step h op)
+
+theorem wgCovers_init : WgCovers State.init := fun _ => by simp [State.init, liveG]
+
+
 end Casket.Lifecycle
